@@ -142,6 +142,41 @@ func ruleQuantizeIntermediateContext(w *World, r *RuleResult) {
 		r.anchorMissing("MinExponent constant")
 		return
 	}
+	// the caller's own context must not round here at all: quantize's contract is the requested exponent,
+	// the digit limit is Quantize's business (RoundToIntegral* have none)
+	scope := w.closureFuncs(f)
+	// ... and neither may the integral variants or the helpers between them and quantize
+	inScope := map[*ssa.Function]bool{}
+	for _, g := range scope {
+		inScope[g] = true
+	}
+	for _, n := range []string{"(*Context).RoundToIntegralValue", "(*Context).RoundToIntegralExact"} {
+		top := w.fn(n)
+		if top == nil {
+			continue
+		}
+		for g := range w.reachable([]*ssa.Function{top}) {
+			if inScope[g] || !w.inPkg(g) || !w.reachesFn("(*Context).quantize")[g] {
+				continue
+			}
+			if g != top && g.Object() != nil && g.Object().Exported() {
+				continue
+			}
+			inScope[g] = true
+			scope = append(scope, g)
+		}
+	}
+	for _, g := range scope {
+		for _, c := range callsIn(g) {
+			cn := w.calleeName(c)
+			if cn != "(*Context).round" && cn != "(*Context).Round" {
+				continue
+			}
+			if pr, isP := basePtr(c.Common().Args[0]).(*ssa.Parameter); isP && isContextPtr(pr.Type()) {
+				r.bad(w.shortName(g)+" | no rounding under the caller's precision", w.instrPos(c), "the integral value is rounded with the caller's own context: the caller's Precision is imposed on RoundToIntegralValue/Exact, which have no digit limit (RoundToIntegralExact(1234567.8) at Precision 5 gives 1.2346E+6)")
+			}
+		}
+	}
 	calls := w.callsTo(f, rounderRound)
 	if len(calls) == 0 {
 		// the digit-dropping is done some other way: nothing to say
